@@ -3,6 +3,7 @@ package props
 import (
 	"encoding/json"
 	"fmt"
+	"sort"
 
 	"github.com/hashicorp/go-argmapper"
 	"verif.local/harness/core"
@@ -29,7 +30,7 @@ func (C15) Info() core.Info {
 			"the accessor clauses have no seam on their path; they are exercised as world construction and reported here, but the claim for them is only that",
 			"type-only outputs of built parties are findable through the documented lookups (BuiltFindable)",
 		},
-		Probes:    []string{"c15_built_execs", "c15_built_target_calls", "c15_built_converter_execs", "c15_fromresult_checked", "c15_valuesets_checked", "c15_callback_error", "c15_repeat_calls", "c15_own_output_set_loaded", "c15_twin_compared", "s1_nonidentity_perms"},
+		Probes:    []string{"c15_built_execs", "c15_built_target_calls", "c15_built_converter_execs", "c15_fromresult_checked", "c15_valuesets_checked", "c15_callback_error", "c15_repeat_calls", "c15_own_output_set_loaded", "c15_args_of_loaded_set_checked", "c15_twin_compared", "s1_nonidentity_perms"},
 		Real:      realComponents,
 		Simulated: simComponents,
 	}
@@ -253,6 +254,10 @@ func (C15) Run(c core.Case, ctx *core.Ctx) []core.Violation {
 						heldVals = own.Values()
 						heldToks = append([]uint64{}, texec.Out...)
 						ctx.St.Inc("c15_own_output_set_loaded")
+						// the loaded set as options for a next call: every value keeps its label
+						for _, m := range checkArgsOf(own, w.Parties[tgt].Out, texec.Out, ctx) {
+							add("value-set-args-mislabelled", "ValueSet", fmt.Sprintf("op %d: %s", oi, m))
+						}
 					}
 				}
 			}
@@ -329,4 +334,56 @@ func (C15) Run(c core.Case, ctx *core.Ctx) []core.Violation {
 		finish(ctx, rt, sim)
 	}
 	return sortViolations(out)
+}
+
+// unreachable is a parameter type nothing in any world supplies or produces.
+type unreachable struct{ ID uint64 }
+
+var argsProbe, _ = argmapper.NewFunc(func(unreachable) {})
+
+// checkArgsOf hands vs.Args() to a call that cannot succeed and reads the labels
+// the library understood from the direct inputs its error lists (C13 makes that
+// list truthful): they must be the labels and tokens of the loaded values.
+func checkArgsOf(vs *argmapper.ValueSet, slots []world.Slot, toks []uint64, ctx *core.Ctx) []string {
+	if len(slots) != len(toks) {
+		return nil
+	}
+	want := map[world.Label]uint64{}
+	for i, s := range slots {
+		l := s.Label
+		if world.IsIface(l.Type) {
+			l.Type = s.Impl // an option carries the dynamic type
+		}
+		if _, dup := want[l]; dup || toks[i] == 0 {
+			return nil
+		}
+		want[l] = toks[i]
+	}
+	var msgs []string
+	var res argmapper.Result
+	if pn, _, _, detail := core.Guard(func() { res = argsProbe.Call(vs.Args()...) }); pn {
+		return []string{"Args() of the loaded set: the probing call did not return: " + trunc(detail)}
+	}
+	ue, ok := res.Err().(*argmapper.ErrArgumentUnsatisfied)
+	if !ok {
+		return nil
+	}
+	ctx.St.Inc("c15_args_of_loaded_set_checked")
+	got := map[world.Label]uint64{}
+	for _, in := range ue.Inputs {
+		id, _, _ := world.Decode(in.Value)
+		got[labelOfValue(in)] = id
+	}
+	for l, id := range want { // order-insensitive: messages are sorted by the caller
+		if g, ok := got[l]; !ok {
+			msgs = append(msgs, fmt.Sprintf("the loaded set holds %s but its Args() supply no value with that label", l))
+		} else if g != id {
+			msgs = append(msgs, fmt.Sprintf("Args() supply token %d as %s, the set holds token %d", g, l, id))
+		}
+	}
+	if len(got) != len(want) {
+		msgs = append(msgs, fmt.Sprintf("Args() supply %d distinct labels for %d values", len(got), len(want)))
+	}
+	sort.Strings(msgs)
+	return msgs
 }
